@@ -64,7 +64,19 @@ def c02(sc, tier, seed):
                             assumptions=['INCRBYFLOAT/HINCRBYFLOAT only on multiples of 0.25 (exact in every float format); decimal rounding of non-dyadic values is out of scope'])
 
 
-CHECKS = {'C02': c02, 'C03': c03, 'C04': c04, 'C05': c05}
+def c06(sc, tier, seed):
+    return transition_check(sc, tier, seed, 'C06', ['MC_keyspace'], 26000,
+                            'TLC enumerates MC_keyspace: 2 keys, each missing or one of 9 values (2 strings, 3 lists, 2 hashes, 2 sets; one- and two-element aggregates so that removing the last element is reached) x one well-formed instance of every data command per key (the WRONGTYPE cross product) + generic key commands (DEL UNLINK EXISTS TYPE TOUCH RENAME RENAMENX COPY KEYS with 16 glob patterns, RANDOMKEY, DBSIZE, SORT variants) + arity/unknown-command failures; FailedInert and WellFormed (no empty aggregate, one type per key) are checked by TLC on the ideal reading; every transition is replayed with full-state comparison before/after (that comparison is the inertness check on the real server).')
+
+
+def c07(sc, tier, seed):
+    return transition_check(sc, tier, seed, 'C07', ['MC_expiry'], 25000,
+                            'TLC enumerates MC_expiry: 2 keys, every type in each lifetime phase (no TTL / deadline in the future / deadline passed but object still stored, produced on the real server by PEXPIREAT into the past so that no sleeping is needed) x one instance of every data command per key + the EXPIRE/PEXPIRE/EXPIREAT/PEXPIREAT x NX/XX/GT/LT table + SET/GETEX expiry options; TLC checks ExpiredIsMissing (reply and live successor are unchanged when the stored db is replaced by its live part) on the ideal reading; every transition is replayed; deadlines are compared exactly for absolute-millisecond commands, within 1 s for whole-second commands and within the elapsed-time window for relative ones.',
+                            assumptions=['model clock in ms; model time 1000000 is mapped to the wall-clock second at which a case starts; symbolic @T:/@M: arguments are substituted by real epoch values at replay time',
+                                         'TTL/PTTL replies are accepted in the window [expected - elapsed - 1.5 s, expected]'])
+
+
+CHECKS = {'C02': c02, 'C07': c07, 'C06': c06, 'C03': c03, 'C04': c04, 'C05': c05}
 
 
 def replay_path(path):
